@@ -1,9 +1,32 @@
 import Tahoe.Storage.LemmasSlot
 import Tahoe.Storage.LemmasImmLease
+import Tahoe.Storage.LemmasLeaseBucket
 /-!
 C25 — lease semantics (property theorems).  Models: `Tahoe/Storage/Lease.lean` (records, v1/v2
 serializers with an abstract `blake2b`, immutable container), `Tahoe/Storage/Mutable.lean` (mutable
 container), `Tahoe/Storage/Slot.lean` (server-level `add_lease` / `renew_lease`).
+
+Coverage of the statement (properties.jsonl C25), clause → theorem(s):
+* "adding a lease whose renew secret already exists renews that lease … instead of adding a duplicate"
+      → container: `renew_or_add` (= `renew_or_add_mutable` + `renew_or_add_immutable`); server `add_lease` over a whole
+        mixed bucket: `add_lease_no_duplicate`
+* "… and never shortens its expiry" → container: `no_backdating` (renew path and add path, both kinds),
+      `no_backdating_renew_*`; whole buckets / server ops (`add_lease`, `renew_lease`, `allocate_buckets` renewing the
+      shares already held): `server_lease_ops_keep_every_lease`, `add_lease_keeps_share`;
+      `slot_testv_and_readv_and_writev`: `rtw_keeps_every_lease`
+* "renewing with an unknown secret changes nothing and reports an error" → `unknown_renew_noop_error` (both kinds),
+      `unknown_renew_noop_error_server`
+* "leases survive share data writes and container growth" → mutable: `leases_survive_data_ops`, whole request
+      `rtw_keeps_every_lease`; immutable upload: `data_write_keeps_leases_immutable` + `open_upload_container`
+* "new-format containers never store lease secrets in cleartext" → `v2_no_cleartext` (non-interference, both kinds,
+      abstract blake2b)
+* cancel (quantifier of the statement: add/renew/cancel/write histories) → `cancel_unknown_noop_error(_immutable)`,
+      `cancel_removes_exactly(_immutable)`, `cancel_all_unlinks_*`, `cancel_unlink_removes_share_only`
+* constants → `lease_constants`
+* hypotheses that exclude inputs: expiry `< 2^32` and immutable lease count `+1 < 2^32` (Python raises `struct.error`
+  there, the model packs mod 2^32); request keys distinct in `rtw_keeps_every_lease` (a Python dict).
+* not covered: the count statement of `add_lease_no_duplicate` for `renew_lease`/`allocate_buckets` (only lease
+  preservation is lifted for those); expirer-driven cancellation schedules (C26).
 -/
 namespace Tahoe.C25
 open Tahoe.Base.File Tahoe.Storage Tahoe.Storage.Mutable Tahoe.Storage.Slot Tahoe.Generated.Storage
@@ -109,35 +132,8 @@ example :
 theorem no_backdating_renew_mutable (h : Bytes → Bytes) (f : File) (hwf : WF f) (secret : Bytes) (t : Nat) (ht : t < 2 ^ 32)
     (j : Nat) (x : Lease) (hx : (j, x) ∈ enumerateLeases f) :
     ∃ x', (j, x') ∈ enumerateLeases (Mutable.renewLease h f secret t).1 ∧ x.expire ≤ x'.expire ∧
-      x'.owner = x.owner ∧ x'.renew = x.renew ∧ x'.cancel = x.cancel ∧ x'.nodeid = x.nodeid := by
-  unfold Mutable.renewLease
-  split
-  · exact ⟨x, hx, Nat.le_refl _, rfl, rfl, rfl, rfl⟩
-  · split
-    · exact ⟨x, hx, Nat.le_refl _, rfl, rfl, rfl, rfl⟩
-    · rename_i s _ i l hfind
-      have hmem := (findRenew_some hfind).1
-      obtain ⟨ho, ho', he, hr, hc, hn⟩ := listed_lease f hwf i l hmem
-      split
-      · rename_i hgt
-        have hw := enumerateLeases_write f hwf i l { l with expire := t } hmem (serMut { l with expire := t })
-          (length_serMut _) (by unfold decodeRec; rw [parseMut_serMut { l with expire := t } ho' ht hr hc hn]; simp [ho])
-        simp only
-        rw [hw]
-        by_cases hj : j = i
-        · subst hj
-          have a := (mem_enumerateLeases.mp hx).2
-          have b := (mem_enumerateLeases.mp hmem).2
-          rw [a] at b
-          simp only [Option.some.injEq] at b
-          subst b
-          refine ⟨{ x with expire := t }, ?_, by simp only; omega, rfl, rfl, rfl, rfl⟩
-          rw [List.mem_map]
-          exact ⟨(j, x), hx, by simp⟩
-        · refine ⟨x, ?_, Nat.le_refl _, rfl, rfl, rfl, rfl⟩
-          rw [List.mem_map]
-          exact ⟨(j, x), hx, by simp [hj]⟩
-      · exact ⟨x, hx, Nat.le_refl _, rfl, rfl, rfl, rfl⟩
+      x'.owner = x.owner ∧ x'.renew = x.renew ∧ x'.cancel = x.cancel ∧ x'.nodeid = x.nodeid :=
+  mut_renew_keeps h f hwf secret t ht j x hx
 
 /-- **no_backdating**, mutable container, for the whole `add_or_renew_lease` (renew path AND the path that adds a
     new lease into an empty slot or a new extra slot): every lease listed before is listed afterwards in the same
@@ -145,15 +141,8 @@ theorem no_backdating_renew_mutable (h : Bytes → Bytes) (f : File) (hwf : WF f
 theorem no_backdating_mutable (h : Bytes → Bytes) (f : File) (hwf : WF f) (avail : Nat) (li : Lease)
     (hexp : li.expire < 2 ^ 32) (j : Nat) (x : Lease) (hx : (j, x) ∈ enumerateLeases f) :
     ∃ x', (j, x') ∈ enumerateLeases (Mutable.addOrRenew h f avail li).1 ∧ x.expire ≤ x'.expire ∧
-      x'.owner = x.owner ∧ x'.renew = x.renew ∧ x'.cancel = x.cancel ∧ x'.nodeid = x.nodeid := by
-  have hr := no_backdating_renew_mutable h f hwf li.renew li.expire hexp j x hx
-  unfold Mutable.addOrRenew
-  split
-  · exact ⟨x, hx, Nat.le_refl _, rfl, rfl, rfl, rfl⟩
-  · split
-    · rename_i f' e; rw [e] at hr; exact hr
-    · exact ⟨x, addLease_keeps f hwf avail _ j x hx, Nat.le_refl _, rfl, rfl, rfl, rfl⟩
-    · rename_i f' e' _ e; rw [e] at hr; exact hr
+      x'.owner = x.owner ∧ x'.renew = x.renew ∧ x'.cancel = x.cancel ∧ x'.nodeid = x.nodeid :=
+  mut_addOrRenew_keeps h f hwf avail li hexp j x hx
 
 /-- **renew_or_add**, immutable container (v1 and v2): same statement over `get_leases` (entry `i` of the
     list is replaced, `List.set`); the share data is untouched -/
@@ -220,54 +209,16 @@ theorem renew_or_add (h : Bytes → Bytes) (avail : Nat) (li : Lease) (hexp : li
 theorem no_backdating_renew_immutable (h : Bytes → Bytes) (f : File) (hwf : ImmL.WF f) (secret : Bytes) (t : Nat)
     (ht : t < 2 ^ 32) (j : Nat) (x : Lease) (hx : (ImmL.getLeases f)[j]? = some x) :
     ∃ x', (ImmL.getLeases (ImmL.renewLease h f secret t).1)[j]? = some x' ∧ x.expire ≤ x'.expire ∧
-      x'.owner = x.owner ∧ x'.renew = x.renew ∧ x'.cancel = x.cancel ∧ x'.nodeid = x.nodeid := by
-  unfold ImmL.renewLease
-  split
-  · exact ⟨x, hx, Nat.le_refl _, rfl, rfl, rfl, rfl⟩
-  · split
-    · exact ⟨x, hx, Nat.le_refl _, rfl, rfl, rfl, rfl⟩
-    · rename_i s _ i l hfind
-      obtain ⟨_, hget, _⟩ := ImmL.findRenew_some hfind
-      rw [Nat.sub_zero] at hget
-      obtain ⟨hi, _, ho, he, hr, hc, hn⟩ := ImmL.listed_lease hwf hget
-      split
-      · rename_i hgt
-        have w := ImmL.write_spec f hwf i hi (serImm { l with expire := t }) (length_serImm _)
-        simp only [ImmL.writeLeaseRecord]
-        rw [w.getElem? hwf j, ImmL.parseImm_serImm { l with expire := t } ho ht hr hc hn]
-        by_cases hj : j = i
-        · subst hj
-          rw [hget] at hx
-          simp only [Option.some.injEq] at hx
-          subst hx
-          exact ⟨{ l with expire := t }, by simp [hi], by simp only; omega, rfl, rfl, rfl, rfl⟩
-        · exact ⟨x, by simp [hj, hx], Nat.le_refl _, rfl, rfl, rfl, rfl⟩
-      · exact ⟨x, hx, Nat.le_refl _, rfl, rfl, rfl, rfl⟩
+      x'.owner = x.owner ∧ x'.renew = x.renew ∧ x'.cancel = x.cancel ∧ x'.nodeid = x.nodeid :=
+  imm_renew_keeps h f hwf secret t ht j x hx
 
 /-- **no_backdating**, immutable container, for the whole `add_or_renew_lease` (renew path and append path) -/
 theorem no_backdating_immutable (h : Bytes → Bytes) (f : File) (hwf : ImmL.WF f) (avail : Nat) (li : Lease)
     (hexp : li.expire < 2 ^ 32) (hcount : ImmL.numLeases f + 1 < 2 ^ 32)
     (j : Nat) (x : Lease) (hx : (ImmL.getLeases f)[j]? = some x) :
     ∃ x', (ImmL.getLeases (ImmL.addOrRenew h f avail li).1)[j]? = some x' ∧ x.expire ≤ x'.expire ∧
-      x'.owner = x.owner ∧ x'.renew = x.renew ∧ x'.cancel = x.cancel ∧ x'.nodeid = x.nodeid := by
-  have hr := no_backdating_renew_immutable h f hwf li.renew li.expire hexp j x hx
-  unfold ImmL.addOrRenew
-  split
-  · rename_i f' e; rw [e] at hr; exact hr
-  · split
-    · exact ⟨x, hx, Nat.le_refl _, rfl, rfl, rfl, rfl⟩
-    · refine ⟨x, ?_, Nat.le_refl _, rfl, rfl, rfl, rfl⟩
-      unfold ImmL.addLease
-      cases hs : ImmL.schemaOf f with
-      | none => exact hx
-      | some s =>
-        simp only [ImmL.writeLeaseRecord]
-        have w := ImmL.append_spec f hwf (serImm (toStored h s li)) (length_serImm _) hcount
-        rw [w.getLeases hwf, List.getElem?_append_left]
-        · exact hx
-        · have := ImmL.listed_lease hwf hx
-          rw [ImmL.length_getLeases hwf]; exact this.1
-  · rename_i f' e' _ e; rw [e] at hr; exact hr
+      x'.owner = x.owner ∧ x'.renew = x.renew ∧ x'.cancel = x.cancel ∧ x'.nodeid = x.nodeid :=
+  imm_addOrRenew_keeps h f hwf avail li hexp hcount j x hx
 
 /-- **no_backdating** (both container kinds): `add_or_renew_lease` — whichever path it takes — never removes a
     lease, never changes its owner or secrets, and never shortens its expiry.  (`numLeases f + 1 < 2^32`:
@@ -281,6 +232,66 @@ theorem no_backdating (h : Bytes → Bytes) (avail : Nat) (li : Lease) (hexp : l
         x'.owner = x.owner ∧ x'.renew = x.renew ∧ x'.cancel = x.cancel ∧ x'.nodeid = x.nodeid) :=
   ⟨fun f j x hwf hx => no_backdating_mutable h f hwf avail li hexp j x hx,
    fun f j x hwf hc hx => no_backdating_immutable h f hwf avail li hexp hc j x hx⟩
+
+/-! ### the same at the level of whole buckets and the server operations -/
+
+/-- **no_backdating / leases survive, server level**: `StorageServer.add_lease`, `StorageServer.renew_lease` and the
+    lease renewal inside `allocate_buckets`, on a bucket mixing mutable and immutable share files of any schema:
+    the bucket keeps the same share numbers, and EVERY lease of EVERY share is still listed afterwards with the same
+    owner, secrets and nodeid and an expiry that is not smaller — also when the loop over the shares is interrupted
+    by an error (`NoSpace`, `IndexError` on a share that lacks the secret) -/
+theorem server_lease_ops_keep_every_lease (env : Env) (b : Bucket) (hb : MixedWF b)
+    (hexp : env.now + renewalTime < 2 ^ 32) (renew cancel : Bytes) (inc : Incoming) (n size : Nat) :
+    BucketKept b (serverAddLease env b renew cancel).1 ∧
+    BucketKept b (serverRenewLease env b renew).1 ∧
+    BucketKept b (allocate env b inc n size renew cancel).1 := by
+  refine ⟨addLeaseAll_kept env _ hexp b hb, ?_, ?_⟩
+  · unfold serverRenewLease
+    split
+    · exact BucketKept.refl b
+    · exact renewAll_kept env renew _ hexp b hb
+  · have h := addLeaseAll_kept env
+      { owner := 0, expire := env.now + renewalTime, renew := renew, cancel := cancel, nodeid := env.nodeid } hexp b hb
+    have hfst : (allocate env b inc n size renew cancel).1 = (addLeaseAll env
+        { owner := 0, expire := env.now + renewalTime, renew := renew, cancel := cancel, nodeid := env.nodeid } b).1 := by
+      simp only [allocate]
+      split
+      · rename_i e; rw [e]
+      · rename_i e; rw [e]
+        split
+        · rfl
+        · split <;> rfl
+    rw [hfst]; exact h
+
+/-- in `lookup` form: share `n` is still there and keeps every lease -/
+theorem add_lease_keeps_share (env : Env) (b : Bucket) (hb : MixedWF b) (hexp : env.now + renewalTime < 2 ^ 32)
+    (renew cancel : Bytes) (n : Nat) (f : File) (hl : lookup b n = some f) :
+    ∃ f', lookup (serverAddLease env b renew cancel).1 n = some f' ∧ Kept f f' :=
+  (server_lease_ops_keep_every_lease env b hb hexp renew cancel [] 0 0).1.lookup n f hl
+
+/-- **renew_or_add, server level** (`StorageServer.add_lease`): when the call completes, every share file of the bucket
+    (mutable or immutable) has been through `add_or_renew_lease`; a share that already held the renew secret has
+    exactly as many leases as before — no duplicate -/
+theorem add_lease_no_duplicate (env : Env) (b : Bucket) (hb : MixedWF b) (hexp : env.now + renewalTime < 2 ^ 32)
+    (renew cancel : Bytes) (hok : (serverAddLease env b renew cancel).2 = none)
+    (n : Nat) (f : File) (hl : lookup b n = some f) (hk : KnowsRenew env.h f renew) :
+    ∃ f', lookup (serverAddLease env b renew cancel).1 n = some f' ∧
+      f' = (shareAddOrRenew env f (makeLease env renew cancel)).1 ∧ (leasesOf f').length = (leasesOf f).length := by
+  unfold serverAddLease at hok ⊢
+  rw [addLeaseAll_lookup env _ b hok n, hl]
+  refine ⟨_, rfl, rfl, ?_⟩
+  exact (shareAddOrRenew_no_duplicate env f (hb (n, f) (lookup_mem hl)) (makeLease env renew cancel) hexp hk).2
+
+/-- **leases survive share data writes, server level** (`slot_testv_and_readv_and_writev`, request keys distinct as in
+    a Python dict): a share that exists before and after the request keeps every (slot, lease) entry of
+    `get_slot_leases` — through the data writes, container growth / relocation, truncation and the request's own
+    renew-or-add on every share it names — whatever the outcome (success, failed test, bad enabler, any error),
+    for the repaired and the unrepaired server -/
+theorem rtw_keeps_every_lease (env : Env) (b : Bucket) (hb : BucketWF b) (we renew cancel : Bytes)
+    (tw : List (Nat × TW)) (hnd : (tw.map (·.1)).Nodup) (rv : List (Nat × Nat)) (rl : Bool)
+    (hexp : env.now + renewalTime < 2 ^ 32) (n : Nat) (f f' : File) (h1 : lookup b n = some f)
+    (h2 : lookup (rtw env b we renew cancel tw rv rl).bucket n = some f') : KeptM f f' :=
+  rtw_keptM env b hb we renew cancel tw hnd rv rl hexp n f f' h1 h2
 
 /-! ### cancel_lease (mutable container; the lease crawler's way of removing expired leases) -/
 
@@ -522,6 +533,24 @@ example :
         { owner := 1, expire := 300, renew := List.replicate 32 2, cancel := [], nodeid := zeros 20 }).1).map
       (fun p => (p.1, p.2.expire)) = [(1, 300)] ∧
     (Mutable.cancelLease id exMut' (List.replicate 32 4)).1 = none := by
+  decide
+
+set_option maxRecDepth 20000 in
+/-- non-vacuity of the bucket theorems: a bucket holding the mutable and the immutable example containers -/
+example : kindOf exMut = .mutable ∧ kindOf exImm = .immutable := by
+  constructor
+  · exact kindOf_mutable (by decide)
+  · exact kindOf_immutable (by decide)
+
+set_option maxRecDepth 20000 in
+/-- … it satisfies `MixedWF`-style hypotheses concretely, `add_lease` with the second lease's secret does not add a
+    lease to either share, and with a fresh secret adds exactly one to each -/
+example :
+    let env : Env := { h := id, nodeid := zeros 20, now := 1000, avail := 10 ^ 9, precheck := true }
+    let b : Bucket := [(0, exMut), (1, exImm)]
+    ((serverAddLease env b (List.replicate 32 2) (List.replicate 32 4)).1.map fun p => (leasesOf p.2).length) = [2, 2] ∧
+    ((serverAddLease env b (List.replicate 32 9) (List.replicate 32 9)).1.map fun p => (leasesOf p.2).length) = [3, 3] ∧
+    (serverAddLease env b (List.replicate 32 2) (List.replicate 32 4)).2 = none := by
   decide
 
 /-! ### leases survive data writes and container growth -/
